@@ -29,6 +29,8 @@ func (a zzAddr) String() string  { return a.s }
 
 type zzConn struct {
 	name      string
+	closeCh   chan struct{} // when non-nil: ReadMsg blocks (after the script) until the connection is closed
+	onWrite   func(m msg.Message)
 	closed    int
 	written   []msg.Message // messages written through the stubbed msg.WriteMsg
 	writeFail bool
@@ -38,7 +40,13 @@ type zzConn struct {
 
 func (c *zzConn) Read(p []byte) (int, error)         { return 0, io.EOF }
 func (c *zzConn) Write(p []byte) (int, error)        { return len(p), nil }
-func (c *zzConn) Close() error                       { c.closed++; return nil }
+func (c *zzConn) Close() error {
+	c.closed++
+	if c.closeCh != nil && c.closed == 1 {
+		close(c.closeCh)
+	}
+	return nil
+}
 func (c *zzConn) LocalAddr() net.Addr                { return zzAddr{"10.0.0.1:7000"} }
 func (c *zzConn) RemoteAddr() net.Addr               { return zzAddr{"10.9.9.9:4242"} }
 func (c *zzConn) SetDeadline(t time.Time) error      { return nil }
@@ -79,6 +87,9 @@ func zzStubWriteMsg(c io.Writer, m any) error {
 		return errZZ
 	}
 	fc.written = append(fc.written, m)
+	if fc.onWrite != nil {
+		fc.onWrite(m)
+	}
 	return nil
 }
 
@@ -88,6 +99,9 @@ func zzStubReadMsg(c io.Reader) (msg.Message, error) {
 	if fc == nil {
 		zzverif.Unsupported("ReadMsg on a reader that is not a harness fake")
 		return nil, errZZ
+	}
+	if len(fc.script) == 0 && fc.closeCh != nil && fc.closed == 0 {
+		<-fc.closeCh // a live peer that sends nothing more
 	}
 	if len(fc.script) == 0 || fc.closed > 0 {
 		return nil, io.EOF
